@@ -569,6 +569,10 @@ func (t *tr) call(c *ast.CallExpr) string {
 		if len(c.Args) == 2 {
 			return "(strings_HasPrefix " + arg(0) + " " + arg(1) + ")"
 		}
+	case "strings.TrimSuffix":
+		if len(c.Args) == 2 {
+			return "(strings_TrimSuffix " + arg(0) + " " + arg(1) + ")"
+		}
 	}
 	if f, ok := funcs[t.pkg+"."+name]; ok && !f.loopy && len(f.results) == 1 && f.recv == "" {
 		s := "(" + f.gname
@@ -944,6 +948,13 @@ func (t *tr) assign(s *ast.AssignStmt, rest []ast.Stmt, end string) string {
 				t.declare(names[1], "err")
 				t.usesOracles = true
 				return cont("let '(" + v(names[0]) + ", " + v(names[1]) + ") := " + val + " in")
+			}
+		case "publicsuffix.PublicSuffix": // etld, _ := publicsuffix.PublicSuffix(x): the list is an oracle
+			if len(c.Args) == 1 && names[1] == "_" && s.Tok == token.DEFINE {
+				val := "psl " + t.expr(c.Args[0])
+				t.declare(names[0], "str")
+				t.usesOracles = true
+				return cont("let " + v(names[0]) + " := " + val + " in")
 			}
 		case "profile.ToASCII": // _, err := profile.ToASCII(x)
 			if len(c.Args) == 1 && names[0] == "_" && s.Tok == token.DEFINE {
@@ -1497,8 +1508,9 @@ func main() {
 				}
 			}
 			order := [][2]string{{"peekKind", "go_peekKind"}, {"hostOnly", "go_hostOnly"}, {"IsIP", "go_IsIP"}, {"isDefaultPortForScheme", "go_isDefaultPortForScheme"},
-				{"parsePortPattern", "go_parsePortPattern"}, {"parseHostPattern", "go_parseHostPattern"}, {"ParsePattern", "go_ParsePattern"}, {"IsDeemedInsecure", "go_IsDeemedInsecure"}}
-			want := map[string]bool{"HostIsEffectiveTLD": true} // public-suffix lookup: an oracle (is_psl), kept as a contract in gencfg
+				{"parsePortPattern", "go_parsePortPattern"}, {"parseHostPattern", "go_parseHostPattern"}, {"ParsePattern", "go_ParsePattern"}, {"IsDeemedInsecure", "go_IsDeemedInsecure"},
+				{"HostIsEffectiveTLD", "go_HostIsEffectiveTLD"}} // publicsuffix.PublicSuffix is the oracle `psl`
+			want := map[string]bool{}
 			for _, f := range order {
 				want[f[0]] = true
 			}
@@ -1507,7 +1519,7 @@ func main() {
 					fail(d, "function %s in pattern.go is not modelled", n)
 				}
 			}
-			sp.WriteString("Section Oracles.\nVariable ace_ok : bytes -> bool.\nVariable ip6 : bytes -> ipres.\n\n")
+			sp.WriteString("Section Oracles.\nVariable ace_ok : bytes -> bool.\nVariable ip6 : bytes -> ipres.\nVariable psl : bytes -> bytes.\n\n")
 			for _, f := range order {
 				fd := decls[f[0]]
 				if fd == nil {
